@@ -34,6 +34,8 @@ fn prefix_cfg(t: Tier) -> HistCfg {
     c.w_upd_pq = 1;
     c.w_replace = 1;
     c.increasing_ts_share = 6;
+    c.wrap_ok = true;
+    c.boundary_share = 2;
     c
 }
 
@@ -223,6 +225,7 @@ pub fn witness_kf() -> Case {
             ghost: None,
             hold: false,
             gen_start: 0,
+            wrap_ok: false,
         },
         path: 0,
         continuation: vec![Op::Match { size: MatchSize::Exact(4) }],
